@@ -32,6 +32,9 @@ type c07Case struct {
 	Card   int          `json:"cardLimit"`
 	Ops    []hop        `json:"ops"`
 	Points []int        `json:"points,omitempty"` // explicit crash points (replay of a single failing point)
+	// PointName/PointOcc: replay of one failing point by name: crash at the PointOcc-th hit of PointName
+	PointName string `json:"pointName,omitempty"`
+	PointOcc  int64  `json:"pointOcc,omitempty"`
 	Sample int          `json:"sample"`           // number of crash points to sample (0 = all)
 	Pick   int64        `json:"pick"`             // sampling salt
 	Extra  *model.Event `json:"extra,omitempty"`  // event ingested after the restart
@@ -253,6 +256,16 @@ func checkC07(cs *c07Case, o *pt.Obs) error {
 	if len(points) >= 2 {
 		o.NonTrivial()
 	}
+	if cs.PointName != "" {
+		// narrowed replay: exactly the named point
+		if err := crashAndRecover(cs, 0, cs.PointName, cs.PointOcc, lo, hi, info, prep, o); err != nil {
+			if _, ok := err.(*pt.Inconclusive); ok {
+				return err
+			}
+			return fmt.Errorf("crash at hit %d of point %s: %v", cs.PointOcc, cs.PointName, err)
+		}
+		return nil
+	}
 	// 3. one crash + restart per point
 	for _, k := range points {
 		name := ""
@@ -271,15 +284,17 @@ func checkC07(cs *c07Case, o *pt.Obs) error {
 				continue
 			}
 			// make the replay file reproduce exactly this point
-			return &pointFailure{k: k, err: fmt.Errorf("crash at point %d (%s): %v", k, name, err)}
+			return &pointFailure{k: k, name: name, occ: occ, err: fmt.Errorf("crash at point %d (%s, hit %d of that point): %v", k, name, occ, err)}
 		}
 	}
 	return nil
 }
 
 type pointFailure struct {
-	k   int
-	err error
+	k    int
+	name string
+	occ  int64
+	err  error
 }
 
 func (p *pointFailure) Error() string { return p.err.Error() }
@@ -555,11 +570,13 @@ func TestC07(t *testing.T) {
 		if errors.As(err, &pf) && len(cs.Points) == 0 {
 			// narrow the replay file to the failing point
 			cs.Points = []int{pf.k}
+			cs.PointName, cs.PointOcc = pf.name, pf.occ
 			if p := os.Getenv("VERIF_REPLAY_OUT"); p != "" {
 				b, _ := json.Marshal(cs)
 				_ = os.WriteFile(p+".point", b, 0o644)
 			}
 			cs.Points = nil
+			cs.PointName, cs.PointOcc = "", 0
 		}
 		return err
 	})
